@@ -17,6 +17,8 @@ EXPLANATION = (
     "re-check loop. Decides the structural necessary conditions of 'a wake-up "
     "can never be lost', for every schedule; does not decide the ring arithmetic "
     "(that readers reach the drained state in a bounded number of calls). "
+    "Hold moves without a mapping (the lap advance of channel_read_map with an "
+    "empty new lap) must notify themselves, since no unmap will follow. "
     "R-PLATFORM: lock_acquire / lock_release / condition_variable_wait / "
     "condition_variable_notify_all reach, on every path, the pthread primitive "
     "they stand for on the object embedded in their own parameter (wait on the "
@@ -60,10 +62,25 @@ def run(ctx, res):
             n = LR.rule_l_notify(la, res, f, cv, site["reads"])
             if n == 0:
                 raise AnalysisBroken("release operation %s no longer stores to any field of the writer's predicate" % name)
+    # a reader operation that moves a hold without mapping must announce it itself
+    for site in sites:
+        if site["loop"]:
+            nh = LR.rule_hold_notify(la, res, prog.func("channel_read_map"), site["cv"], site["reads"])
+            if nh == 0:
+                raise AnalysisBroken("channel_read_map no longer moves a hold cursor (lap advance)")
+    # "readers that keep reading reach the drained state": a read that reports 'empty' while committed
+    # bytes remain stalls that reader's hold for ever, and with it the writer blocked on it
+    from .c01 import CHANNEL_FIELDS
+    from ..channelrules import rule_empty_drained
+    res.guard(rule_empty_drained, prog, res)
+    LR.rule_l_guarded(la, res, ("channel", "lock"), CHANNEL_FIELDS,
+                      exempt_fns={"video_sink_bytes_waiting": "advisory statistic, read-only, outside every property"})
+    res.require_min("R-EMPTY-DRAINED", 2)
+    res.require_min("L-GUARDED", 40)
     # the wrappers the rules above treat as primitives (linux/platform.c)
     from .. import platformrules as PR
     PR.run_all(prog, la, res, thread=False, event=False)
     res.require_min("R-PLATFORM", 4)
     res.require_min("L-CV", 12)
-    res.require_min("L-NOTIFY", 3)
+    res.require_min("L-NOTIFY", 5)
     res.require_min("L-RECHECK", 1)
